@@ -77,6 +77,9 @@ CHECKS = {
  "C24": ("exploration", "defect-by-construction mutation monitor over the real compiler and Runtime loader",
    "120/4000 base programs x every defect operator (undeclared metric, $k beyond groups, unknown $name, sibling-pattern capture, undefined decorator, next outside decorator, key too many/few, redeclared, unused declaration incl. nested and hidden, invalid regexes, regex over default/custom limits, Int / and % by literal 0) at every eligible site (~13k / ~430k mutants): each must be rejected with an error whose position lies inside the source; a sample is loaded through Runtime.CompileAndRun with the line hook verifying no VM runs and the load-error counter moves.",
    "Defect classes are guaranteed by how each operator is built; positions parsed from the error text.", "§4 C24"),
+ "C25": ("exploration", "end-of-run reconciliation of expvar counters and the /metrics scrape with ground truth from hooks, the harness's write log, the reference interpreter and a load-event model (under -race)",
+   "40/1500 end-to-end runs of the real mtail.Server with harness-controlled wakers: program directory with two fixed programs clashing in kind (second refused at registration), a syntactically broken one and 1-2 generated ones (runtime errors); 5-12 steps of log appends to two files (one discovered by glob), a rotation, comment-only program edits, removals / re-adds and plain rescans each via SIGHUP. At the quiescent end lines_total, log_lines_total[path], log_count, prog_loads / unloads / load_errors_total and prog_runtime_errors_total are reconciled, then read again as mtail_* series from a scrape over the server's unix socket.",
+   "One server at a time per process (expvars are global; unique program names and deltas are used); written lines == delivered lines relies on the step barriers (C16).", "§4 C25"),
  "C26": ("exploration", "executable model of the statement vs real runtime.Runtime over filesystem histories, observed at the VM line hook (under -race)",
    "Every history of length <=2 (quick) / <=3 (thorough) over 17 steps on two program files plus 150/6000 random length-12 histories over three, in a real directory that also holds a dot-file, a README, a .bak file and a sub-directory all containing valid programs; after every step + LoadAllPrograms a numbered probe line (followed by two barrier lines that make its processing complete) is pushed; the (program, VM) pairs that processed it, the marker gauge of each running version, probe counters and prog_loads/unloads/load_errors_total are compared with the model.",
    "Barrier lines make 'who processed the probe' a logical, not timed, observation.", "§4 C26"),
